@@ -24,10 +24,17 @@ def lit_bit(b):
     return N("lit", kind="bit", v=[b])
 
 
-def regex(items, kind="text"):
-    """items: list of (chars, lo, hi)"""
-    return N("re", kind=kind, items=[{"set": sorted(ord(c) if isinstance(c, str) else c for c in cs), "lo": lo, "hi": hi}
-                                     for cs, lo, hi in items])
+def regex(items, kind="text", pre=0, pre_set=""):
+    """items: list of (chars, lo, hi); pre: a leading zero-width assertion, carried as a pseudo item with hi = 0 and
+    lo = 1 look-behind for one of pre_set | 2 \\b | 3 \\B | 4 ^   (spec/FanIR.tla AssertionHolds)"""
+    its = [{"set": sorted(ord(c) if isinstance(c, str) else c for c in cs), "lo": lo, "hi": hi} for cs, lo, hi in items]
+    if pre:
+        its.insert(0, {"set": sorted(ord(c) for c in pre_set), "lo": pre, "hi": 0})
+    return N("re", kind=kind, items=its)
+
+
+def is_assertion(it):
+    return it["hi"] == 0 and it["lo"] > 0
 
 
 def nt(s):
@@ -91,7 +98,13 @@ def _quant(lo, hi):
 
 
 def regex_src(node):
-    return "".join(_cls(it["set"], node["kind"]) + _quant(it["lo"], it["hi"]) for it in node["items"])
+    out = ""
+    for it in node["items"]:
+        if is_assertion(it):
+            out += {1: "(?<=%s)" % _cls(it["set"], node["kind"]), 2: "\\b", 3: "\\B", 4: "^"}[it["lo"]]
+        else:
+            out += _cls(it["set"], node["kind"]) + _quant(it["lo"], it["hi"])
+    return out
 
 
 def render_node(n, top=False):
@@ -148,7 +161,9 @@ def nullable(n, rules, seen=frozenset()):
     if k == "lit":
         return len(n["v"]) == 0
     if k == "re":
-        return all(it["lo"] == 0 for it in n["items"])
+        if any(is_assertion(it) and it["lo"] in (1, 2) for it in n["items"]):
+            return False        # a look-behind never holds at the start of the terminal's own text, \b needs a word character
+        return all(it["lo"] == 0 for it in n["items"] if not is_assertion(it))
     return False
 
 
@@ -221,7 +236,7 @@ CLASSES = ["abc", "ab", "01", "0123456789", "xyz"]
 SMALL_CLASSES = ["abc", "ab", "01", "xy", "a\u00e9"]
 
 
-def rand_leaf(rnd, flavour, classes=None):
+def rand_leaf(rnd, flavour, classes=None, assertions=False):
     classes = classes or CLASSES
     r = rnd.random()
     if flavour == "bits":
@@ -238,37 +253,40 @@ def rand_leaf(rnd, flavour, classes=None):
     items = [(rnd.choice(classes), lo, hi)]
     if rnd.random() < 0.3:
         items.append((rnd.choice(classes), 1, 1))
+    if assertions and rnd.random() < 0.4:
+        # a regex terminal is matched against its own text: what precedes it in the input must not matter
+        return regex(items, pre=rnd.choice([1, 2, 3, 3, 4]), pre_set=rnd.choice(classes))
     return regex(items)
 
 
-def rand_node(rnd, depth, nts, flavour, regex_ok=True, classes=None):
+def rand_node(rnd, depth, nts, flavour, regex_ok=True, classes=None, assertions=False):
     r = rnd.random()
     if depth <= 0 or r < 0.28:
         if nts and rnd.random() < 0.45:
             return nt(rnd.choice(nts))
-        leaf = rand_leaf(rnd, flavour, classes)
+        leaf = rand_leaf(rnd, flavour, classes, assertions)
         if leaf["k"] == "re" and not regex_ok:
             return lit_text(rnd.choice(TEXT_LITS))
         return leaf
     if r < 0.48:
-        return alt(*[rand_node(rnd, depth - 1, nts, flavour, regex_ok, classes) for _ in range(rnd.randint(2, 3))])
+        return alt(*[rand_node(rnd, depth - 1, nts, flavour, regex_ok, classes, assertions) for _ in range(rnd.randint(2, 3))])
     if r < 0.74:
-        return cat(*[rand_node(rnd, depth - 1, nts, flavour, regex_ok, classes) for _ in range(rnd.randint(2, 3))])
+        return cat(*[rand_node(rnd, depth - 1, nts, flavour, regex_ok, classes, assertions) for _ in range(rnd.randint(2, 3))])
     lo, hi = rnd.choice([(0, INF), (1, INF), (0, 1), (2, 2), (1, 3), (0, 2), (2, INF), (1, 2), (3, 3)])
-    return rep(rand_node(rnd, depth - 1, nts, flavour, regex_ok, classes), lo, hi)
+    return rep(rand_node(rnd, depth - 1, nts, flavour, regex_ok, classes, assertions), lo, hi)
 
 
-def rand_grammar(rnd, flavour=None, regex_ok=True, computed=None, recursion=True, classes=None):
+def rand_grammar(rnd, flavour=None, regex_ok=True, computed=None, recursion=True, classes=None, assertions=False):
     """A random grammar of the generated family (retries until grammar_in_family)."""
     flavour = flavour or rnd.choice(["text", "text", "text", "bytes", "bits"])
     for _ in range(200):
         k = rnd.randint(2, 4)
         nts = ["<n%d>" % i for i in range(1, k + 1)]
         rules = {}
-        rules["<start>"] = rand_node(rnd, 2, nts, flavour, regex_ok, classes)
+        rules["<start>"] = rand_node(rnd, 2, nts, flavour, regex_ok, classes, assertions)
         for i, s in enumerate(nts):
             later = nts[i + 1:]
-            body = rand_node(rnd, 2, later, flavour, regex_ok, classes)
+            body = rand_node(rnd, 2, later, flavour, regex_ok, classes, assertions)
             fallback = rand_leaf(rnd, flavour, classes)
             if fallback["k"] == "re":
                 fallback = lit_text(chr(99 + i))
@@ -433,6 +451,8 @@ def count_derivations(g, max_units, cap=10 ** 7):
         if k == "re":
             out = [1] + [0] * max_units
             for it in n["items"]:
+                if is_assertion(it):
+                    continue
                 one = [0] * (max_units + 1)
                 for c in range(it["lo"], min(it["hi"], max_units) + 1):
                     one[c] = min(cap, len(it["set"]) ** c)
